@@ -133,6 +133,10 @@ func ruleEval(c *Ctx, mode string) *RuleResult {
 		x.hyp = defaultHyp
 		x.events = agg.events
 		x.gaps = agg.gaps
+		x.truncP = &agg.trunc
+		if mode == "go" {
+			x.limit = 40000000 // the Go universe has twice the atoms: some projection runs need more steps to reach their fixpoint
+		}
 		return x
 	}
 	var pendingViol [][3]string
